@@ -200,14 +200,16 @@ func Run(c Config, main func()) (res Result) {
 	if c.Ballast > 0 {
 		ballast = make([]byte, c.Ballast)
 	}
+	// the process's time zone is part of the environment: set before package-level
+	// state is (re)initialised, as it would be at process start
+	oldLocal := time.Local
+	time.Local = time.FixedZone(fmt.Sprintf("SIM%+d", c.TZOffsetMin), c.TZOffsetMin*60)
+	defer func() { time.Local = oldLocal }()
 	for _, f := range resets {
 		f()
 	}
 	log.SetOutput(Stderr)
 	log.SetFlags(0)
-	oldLocal := time.Local
-	time.Local = time.FixedZone(fmt.Sprintf("SIM%+d", c.TZOffsetMin), c.TZOffsetMin*60)
-	defer func() { time.Local = oldLocal }()
 	if c.GCOff {
 		runtime.GC()
 		old := debug.SetGCPercent(-1)
